@@ -328,6 +328,10 @@ fn tree_level<TC: ModelCfg>(args: &Args, rep: &Report) {
     });
 }
 
+pub fn permutations_pub(items: &[usize]) -> Vec<Vec<usize>> {
+    permutations(items)
+}
+
 fn permutations(items: &[usize]) -> Vec<Vec<usize>> {
     if items.len() <= 1 {
         return vec![items.to_vec()];
